@@ -85,7 +85,7 @@ impl ExcHandler {
     //@  ensures r == (self.finally_ip == self.catch_ip)
     //@end
 }
-//@struct file=yarel/src/object.rs name=ObjFiber keepfields=stack,frames,exc_handlers,return_value,return_ip,error_ip map "Stack<Value, STACK_MAX>" => "StackS" map "*const u8" => "usize"
+//@struct file=yarel/src/object.rs name=ObjFiber keepfields=stack,frames,exc_handlers,return_value,pending_exception,return_ip,return_handler_count,error_ip map "Stack<Value, STACK_MAX>" => "StackS" map "*const u8" => "usize"
 
 impl ObjFiber {
     // Every installed handler refers to heights that still exist, and inner handlers were installed at heights not
@@ -112,7 +112,7 @@ impl ObjFiber {
     //@  ensures old(self).exc_handlers@.len() == 0 ==> r is None && final(self).exc_handlers@ == old(self).exc_handlers@
     //@  ensures old(self).exc_handlers@.len() > 0 ==> r == Some(old(self).exc_handlers@.last()) && final(self).exc_handlers@ == old(self).exc_handlers@.drop_last()
     //@  ensures final(self).stack == old(self).stack, final(self).frames == old(self).frames, final(self).handlers_ok()
-    //@  ensures final(self).return_ip == old(self).return_ip, final(self).return_value == old(self).return_value, final(self).error_ip == old(self).error_ip
+    //@  ensures final(self).return_ip == old(self).return_ip, final(self).return_value == old(self).return_value, final(self).error_ip == old(self).error_ip, final(self).pending_exception == old(self).pending_exception, final(self).return_handler_count == old(self).return_handler_count
     //@end
 
     //@fn file=yarel/src/object.rs path=ObjFiber::take_return_data ret=r
@@ -121,6 +121,7 @@ impl ObjFiber {
     //@  ensures old(self).return_ip is Some ==> r == Some((old(self).return_value, old(self).return_ip->0)) && final(self).return_ip is None
     //@  ensures old(self).return_ip is None ==> r is None && final(self).return_value == old(self).return_value && final(self).return_ip is None
     //@  ensures final(self).stack == old(self).stack, final(self).frames == old(self).frames, final(self).exc_handlers == old(self).exc_handlers
+    //@  ensures final(self).pending_exception == old(self).pending_exception, final(self).error_ip == old(self).error_ip, final(self).return_handler_count == old(self).return_handler_count
     //@end
 
     // The failure address handed to the trace builder must lie in the code of the frame it is stored into: it is turned
@@ -145,7 +146,7 @@ impl ObjFiber {
             && final(f).slot_base == f.slot_base && final(f).closure == f.closure,
             final(self).stack == old(self).stack, final(self).exc_handlers == old(self).exc_handlers,
             final(self).return_ip == old(self).return_ip, final(self).return_value == old(self).return_value,
-            final(self).error_ip == old(self).error_ip,
+            final(self).error_ip == old(self).error_ip, final(self).pending_exception == old(self).pending_exception, final(self).return_handler_count == old(self).return_handler_count,
     { unimplemented!() }
 }
 
@@ -189,13 +190,13 @@ impl Vm {
     //@  requires old(self).fib.stack.view.len() < STACK_MAX
     //@  ensures final(self).fib.stack.view == old(self).fib.stack.view.push(value), final(self).fib.frames == old(self).fib.frames, final(self).fib.exc_handlers == old(self).fib.exc_handlers
     //@  ensures final(self).ip == old(self).ip, final(self).handling_exception == old(self).handling_exception
-    //@  ensures final(self).fib.return_ip == old(self).fib.return_ip, final(self).fib.return_value == old(self).fib.return_value, final(self).fib.error_ip == old(self).fib.error_ip
+    //@  ensures final(self).fib.return_ip == old(self).fib.return_ip, final(self).fib.return_value == old(self).fib.return_value, final(self).fib.error_ip == old(self).fib.error_ip, final(self).fib.pending_exception == old(self).fib.pending_exception, final(self).fib.return_handler_count == old(self).fib.return_handler_count
     //@end
     //@fn file=yarel/src/vm.rs path=Vm::pop ret=r
     //@  requires old(self).fib.stack.view.len() > 0
     //@  ensures r == old(self).fib.stack.view.last(), final(self).fib.stack.view == old(self).fib.stack.view.drop_last(), final(self).fib.frames == old(self).fib.frames, final(self).fib.exc_handlers == old(self).fib.exc_handlers
     //@  ensures final(self).ip == old(self).ip, final(self).handling_exception == old(self).handling_exception
-    //@  ensures final(self).fib.return_ip == old(self).fib.return_ip, final(self).fib.return_value == old(self).fib.return_value, final(self).fib.error_ip == old(self).fib.error_ip
+    //@  ensures final(self).fib.return_ip == old(self).fib.return_ip, final(self).fib.return_value == old(self).fib.return_value, final(self).fib.error_ip == old(self).fib.error_ip, final(self).fib.pending_exception == old(self).fib.pending_exception, final(self).fib.return_handler_count == old(self).fib.return_handler_count
     //@end
 
     // PushExcHandler: the record notes where the catch code and the finally code start (relative operands) and the
@@ -229,7 +230,11 @@ impl Vm {
     //@  ensures old(self).fib.exc_handlers@.len() == 0 ==> r is Err && final(self).fib.stack == old(self).fib.stack && final(self).fib.frames == old(self).fib.frames && final(self).fib.exc_handlers@ == old(self).fib.exc_handlers@
     //@  ensures old(self).fib.exc_handlers@.len() > 0 ==> r is Ok
     //@  ensures old(self).fib.exc_handlers@.len() > 0 ==> final(self).fib.exc_handlers@ == old(self).fib.exc_handlers@.drop_last()
-    //@  ensures old(self).fib.exc_handlers@.len() > 0 ==> final(self).fib.stack.view == old(self).fib.stack.view.take(old(self).fib.exc_handlers@.last().init_stack_size as int).push(old(self).fib.stack.view.last())
+    //@  ensures @catch_block_receives_the_exception_on_top_of_the_handlers_slots (old(self).fib.exc_handlers@.len() > 0 && old(self).fib.exc_handlers@.last().finally_ip != old(self).fib.exc_handlers@.last().catch_ip) ==> final(self).fib.stack.view == old(self).fib.stack.view.take(old(self).fib.exc_handlers@.last().init_stack_size as int).push(old(self).fib.stack.view.last())
+    //@  ensures @exception_waits_in_the_fiber_while_the_finally_block_runs (old(self).fib.exc_handlers@.len() > 0 && old(self).fib.exc_handlers@.last().finally_ip == old(self).fib.exc_handlers@.last().catch_ip) ==> final(self).fib.pending_exception == old(self).fib.stack.view.last()
+    //@  ensures @exception_leaving_a_finally_block_cancels_its_parked_return (old(self).fib.exc_handlers@.len() > 0 && old(self).fib.exc_handlers@.len() - 1 < old(self).fib.return_handler_count) ==> final(self).fib.return_ip is None
+    //@  ensures @exception_caught_inside_a_finally_block_keeps_the_parked_return (old(self).fib.exc_handlers@.len() > 0 && old(self).fib.exc_handlers@.len() - 1 >= old(self).fib.return_handler_count) ==> final(self).fib.return_ip == old(self).fib.return_ip && final(self).fib.return_value == old(self).fib.return_value
+    //@  ensures @finally_block_is_entered_at_the_height_of_the_normal_path (old(self).fib.exc_handlers@.len() > 0 && old(self).fib.exc_handlers@.last().finally_ip == old(self).fib.exc_handlers@.last().catch_ip) ==> final(self).fib.stack.view == old(self).fib.stack.view.take(old(self).fib.exc_handlers@.last().init_stack_size as int)
     //@  ensures old(self).fib.exc_handlers@.len() > 0 ==> final(self).fib.frames@.len() == old(self).fib.exc_handlers@.last().frame_count && final(self).fib.frames@.drop_last() == old(self).fib.frames@.take(old(self).fib.exc_handlers@.last().frame_count - 1)
     //@  ensures old(self).fib.exc_handlers@.len() > 0 ==> final(self).ip == old(self).fib.exc_handlers@.last().catch_ip && final(self).fib.frames@.last().slot_base == old(self).fib.frames@[old(self).fib.exc_handlers@.last().frame_count - 1].slot_base
     //@  ensures old(self).fib.exc_handlers@.len() > 0 ==> final(self).handling_exception == (old(self).fib.exc_handlers@.last().finally_ip == old(self).fib.exc_handlers@.last().catch_ip)
@@ -255,6 +260,7 @@ impl Vm {
     //@  ensures final(self).fib.exc_handlers@ == old(self).fib.exc_handlers@.drop_last()
     //@  ensures final(self).fib.stack.view == old(self).fib.stack.view.take(old(self).fib.exc_handlers@.last().init_stack_size as int)
     //@  ensures final(self).fib.return_ip == Some(old(self).ip) && final(self).fib.return_value == old(self).fib.stack.view.last()
+    //@  ensures @parked_return_remembers_the_handlers_outside_its_finally_block final(self).fib.return_handler_count == final(self).fib.exc_handlers@.len()
     //@  ensures final(self).ip == old(self).fib.exc_handlers@.last().finally_ip, final(self).fib.frames == old(self).fib.frames
     //@  ensures final(self).fib.handlers_ok()
     //@end
@@ -262,12 +268,17 @@ impl Vm {
     // EndFinally: an exception still in flight continues to the next handler out; a parked return resumes (value back
     // on the stack, execution at the parked Return instruction); otherwise fall through.
     //@fn file=yarel/src/vm.rs path=Vm::end_finally_impl ret=r
-    //@  requires old(self).fib.handlers_ok(), old(self).handling_exception ==> old(self).fib.stack.view.len() > 0
+    //@  subst "Value::None" => "Value::none_value()"
+    //@  requires old(self).fib.handlers_ok()
     //@  requires old(self).fib.stack.view.len() < STACK_MAX
     //@  requires old(self).handling_exception && old(self).fib.exc_handlers@.len() > 0 ==> old(self).fib.exc_handlers@.last().init_stack_size < STACK_MAX - 1
     //@  ensures !old(self).handling_exception && old(self).fib.return_ip is None ==> r is Ok && final(self).fib.stack == old(self).fib.stack && final(self).ip == old(self).ip && final(self).fib.exc_handlers == old(self).fib.exc_handlers
     //@  ensures (!old(self).handling_exception && old(self).fib.return_ip is Some) ==> r is Ok && final(self).ip == old(self).fib.return_ip->0 && final(self).fib.stack.view == old(self).fib.stack.view.push(old(self).fib.return_value) && final(self).fib.return_ip is None && final(self).fib.exc_handlers == old(self).fib.exc_handlers
     //@  ensures old(self).handling_exception && old(self).fib.exc_handlers@.len() == 0 ==> r is Err
+    //@  ensures @pending_exception_is_re_raised_to_the_next_handler (old(self).handling_exception && old(self).fib.exc_handlers@.len() > 0 && old(self).fib.return_ip is None) ==> r is Ok && final(self).fib.exc_handlers@ == old(self).fib.exc_handlers@.drop_last()
+    //@  ensures (old(self).handling_exception && old(self).fib.exc_handlers@.len() > 0 && old(self).fib.return_ip is None) ==> final(self).ip == old(self).fib.exc_handlers@.last().catch_ip
+    //@  ensures ((old(self).handling_exception && old(self).fib.exc_handlers@.len() > 0 && old(self).fib.return_ip is None) && old(self).fib.exc_handlers@.last().finally_ip != old(self).fib.exc_handlers@.last().catch_ip) ==> final(self).fib.stack.view =~= old(self).fib.stack.view.take(old(self).fib.exc_handlers@.last().init_stack_size as int).push(old(self).fib.pending_exception)
+    //@  ensures ((old(self).handling_exception && old(self).fib.exc_handlers@.len() > 0 && old(self).fib.return_ip is None) && old(self).fib.exc_handlers@.last().finally_ip == old(self).fib.exc_handlers@.last().catch_ip) ==> final(self).fib.pending_exception == old(self).fib.pending_exception
     //@  ensures final(self).fib.handlers_ok()
     //@end
 }
